@@ -9,8 +9,8 @@ edges of the real table are compared with the model's `(i / n) * max` and with t
 (the property fixes the class width, not the float expression); the look-ups are judged on the edges the table holds.
 
 Per-point tables: the model is the REPAIRED per-point look-up (every point selects the class in its own column and is
-checked against its own range, tools/fixes/C07-binned-per-point-class.diff).  The behaviour before the repair (class
-and range check of the FIRST point for all points) is the finding class `binned-multi-first-point-class`; it is
+checked against its own range, /repo commit 3047e0d).  The behaviour before the repair (class
+and range check of the FIRST point for all points) is the finding class `binned-multi-first-point-class` (fixed by 3047e0d); it is
 recognised by its mechanism only: the code's answer must be bit for bit the first-point reproduction."""
 import json
 import math
@@ -369,7 +369,7 @@ class C07(Prop):
         "binned_neuber_consequences", "exists_isNeuberStress"]]
     PARTIAL = {
         "PylifeVerif.C07.binned_multi_first_point_eq_single_partial":
-            "about the per-point look-up as coded BEFORE tools/fixes/C07-binned-per-point-class.diff (class and range check of "
+            "about the per-point look-up as coded BEFORE /repo commit 3047e0d (class and range check of "
             "the first point for all points): equal to the single look-ups only under `hprop` (loads proportional to the "
             "maxima); without it the statement is false (first_point_selection_ignores_range_of_other_points, "
             "first_point_selection_wrong_class).  The full statement is binned_multi_eq_single / binned_multi_out_of_range "
@@ -410,9 +410,9 @@ class C07(Prop):
         "(FKMNonlinearDetector._proceed_on_secondary_branch) passes load ranges whose index has no node_id level at all, the "
         "doc string asks for a RangeIndex.  A per-point Series whose node_id labels are in another order than the table's is "
         "therefore read in Series order (decision recorded here; the property text does not mention labels)",
-        "C07: the per-point look-up is modelled as REPAIRED by tools/fixes/C07-binned-per-point-class.diff (every point in its "
+        "C07: the per-point look-up is modelled as REPAIRED by /repo commit 3047e0d (every point in its "
         "own column, own range check).  Before the repair the code took class and range check of the first point for all "
-        "points: finding class binned-multi-first-point-class, recognised only when the code's answer equals the "
+        "points: finding class binned-multi-first-point-class (fixed by 3047e0d), recognised only when the code's answer equals the "
         "first-point reproduction bit for bit (harness: oracle `first_point_repro`, correspondence: model "
         "`lookupMultiFirst`); the harness code that classifies this belongs to the trusted base",
     ]
@@ -801,7 +801,7 @@ class C07(Prop):
 
 
 def first_point_repro(ref, fn, xs):
-    """The per-point look-up as coded before tools/fixes/C07-binned-per-point-class.diff, reproduced on the real table's
+    """The per-point look-up as coded before /repo commit 3047e0d, reproduced on the real table's
     numbers: class of the FIRST point's load in the first point's column for all points, range check for the first point
     only.  Used only to recognise the recorded finding by its mechanism."""
     k0 = klass(ref[(fn, 0)][0], xs[0])
@@ -818,8 +818,10 @@ def solver_tol(law_type, fn):
     """(relative, absolute) tolerance of a wrapped law's value against another call of the same law.  stub: exact.
     ExtendedNeuber: the array Newton iteration stops when ALL elements have converged, so a value depends on its
     companions within the solver tolerance rtol = tol = 1e-4; a strain amplifies a stress error by at most 1/n' <= 10.
-    SeegerBeste: the vectorised secant iteration stops early (open C06 finding seegerbeste-tolerance, deviations of some
-    1e-4 .. 1e-3 observed between two calls): ten times wider."""
+    SeegerBeste: ten times wider.  This factor is kept from before the repair of the C06 finding seegerbeste-tolerance
+    (fixed by de286fc + b50f603): the vectorised secant iteration of that tree stopped early, deviations of some
+    1e-4 .. 1e-3 were observed between two calls then.  The solver of the checked tree is a per-element bisection; the
+    tolerance has not been re-measured since the repair."""
     if law_type == "stub":
         return 0.0, 0.0
     f = 10.0 if law_type == "sb" else 1.0
